@@ -264,8 +264,8 @@ UNIT = {
             vfs_wf(self) ==> (r is Some <==> self.file_path_map@.contains_key(id.id) && has_content(self, *id)) /*@C22.vfs.document-exists-iff-wf*/'''),
         'Vfs::get_syntax_tree': vfs_fn(
             'get_syntax_tree', ret='r', requires='keys_ok()',
-            ensures='''r matches Some(t) ==> self.tree_map@.contains_key(*id) && *t == self.tree_map@[*id],
-            r is None ==> !self.tree_map@.contains_key(*id),
+            ensures='''r matches Some(t) ==> self.tree_map@.contains_key(*id) && *t == self.tree_map@[*id] /*@C22.vfs.syntax-tree-is-the-files-entry*/,
+            r is None ==> !self.tree_map@.contains_key(*id) /*@C22.vfs.syntax-tree-is-the-files-entry*/,
             // under the representation invariant: a tree is handed out exactly for the files that have a text, and it is a parse of THAT text
             vfs_wf(self) ==> (r is Some <==> has_content(self, *id)),
             vfs_wf(self) ==> (r matches Some(t) ==> tree_of_text(*t, content_of(self, *id))) /*@C22.vfs.tree-is-parse-of-current-text*/'''),
